@@ -429,3 +429,20 @@ def pop_until_exhausted_rule(r, ctx):
     r.check(ok and len(answers) >= 3, "MapEventQueue::pop/none-only-when-exhausted", inner[0].loc(), "after an entry was taken from the queues the function answers Some(..) or takes the next entry (%d answers)" % len(answers),
             "an entry taken from the queues can end the function with None (path %s): write_to_buffer reports NoData although events are still queued, the lane leaves the dirty set and a pending Remove / Clear / Synced is never written" % (wit,))
     return b
+
+
+def escape_text_rule(r, ctx):
+    """swimos_model::literal::escape_text (quoted node / lane names of envelopes, quoted text and attribute names of Recon): what is not escaped is
+    copied as it is. The loop runs over the characters of the text - a scan over its bytes turns every multi-byte character into one Latin-1
+    character per byte (`u-umlaut` becomes two characters), which is still a valid string, so nothing downstream notices."""
+    md = ctx.crate("swimos_model")
+    b = ctx.saw(md.fn(suffix="literal::escape_text"))
+    bodies = [b] + list(md.closures_of(b.defpath))
+    it = [c for x in bodies for c in x.calls if c.name in ("chars", "char_indices") and (c.self_adt or c.callee.get("self_ty") or "") in ("str", "&str", None, "") or (c.name in ("chars", "char_indices"))]
+    bytewise = [(x, c) for x in bodies for c in x.calls if c.name in ("bytes", "as_bytes", "into_bytes", "as_bytes_mut", "encode_utf16")]
+    widen = [(x, c) for x in bodies for c in x.calls if c.name == "from" and "From<u8> for char" in (c.defpath or "")]
+    fnrefs = "From<u8> for char" in str([blk for x in bodies for blk in x.blocks])
+    r.check(bool(it) and not bytewise and not widen and not fnrefs, "escape_text/iterates-characters", where(b), "escape_text walks text.chars() and copies unescaped characters unchanged",
+            "escape_text scans the text %s: every byte of a multi-byte character is written as a character of its own, so a name that needs an escape and contains a non-ASCII character is written as a different name "
+            "(the envelope is still valid and is delivered to whoever is registered under the mangled name)" % ("bytewise" if bytewise or widen or fnrefs else "without iterating its characters"))
+    return b
